@@ -197,6 +197,9 @@ class Check(core.CheckBase):
         index += 1
         if self.mine(index):
             yield {'kind': 'collections'}
+        index += 1
+        if self.mine(index):
+            yield {'kind': 'edge_values'}
         for family in ('tls', 'ssh', 'dns', 'opp'):
             for block in range(2 if self.tier == 'quick' else 24):
                 index += 1
@@ -247,6 +250,36 @@ class Check(core.CheckBase):
         if obj is None:
             return []
         return self.judge_one(obj, case, ('object', case['cls'], case['number']))
+
+    def judge_edge_values(self, case):
+        """Constructed objects holding values at the ends of their domains - aware datetimes whose UTC equivalent leaves the
+        calendar, the first and last representable instants, empty and very long strings and byte strings: rendering succeeds."""
+        import datetime  # pylint: disable=import-outside-toplevel
+        import cryptoparser.httpx.header as header  # pylint: disable=import-outside-toplevel
+        import cryptoparser.tls.subprotocol as sub  # pylint: disable=import-outside-toplevel
+        zone = lambda minutes: datetime.timezone(datetime.timedelta(minutes=minutes))
+        moments = [datetime.datetime(9999, 12, 31, 23, 59, 59, tzinfo=zone(-60)), datetime.datetime(1, 1, 1, 0, 0, 0, tzinfo=zone(60)),
+                   datetime.datetime(9999, 12, 31, 23, 59, 59, tzinfo=zone(0)), datetime.datetime(1, 1, 1, tzinfo=zone(0)),
+                   datetime.datetime(9999, 12, 31, 23, 59, 59), datetime.datetime(1, 1, 1), datetime.datetime(1970, 1, 1, tzinfo=zone(840)),
+                   datetime.datetime(2038, 1, 19, 3, 14, 8, tzinfo=zone(-720))]
+        found = []
+        for number, moment in enumerate(moments):
+            builders = [lambda m=moment: header.HttpHeaderFieldValueDate(m), lambda m=moment: header.HttpHeaderFieldValueExpires(m),
+                        lambda m=moment: header.HttpHeaderFieldValueLastModified(m),
+                        lambda m=moment: header.HttpHeaderFieldValueSetCookie('n', 'v', expires=m),
+                        lambda m=moment: sub.TlsHandshakeHelloRandom(m)]
+            for position, build in enumerate(builders):
+                try:
+                    obj = build()
+                except Exception:  # pylint: disable=broad-except
+                    continue        # the constructor refuses the value: nothing to render
+                self.stats['edge_value_objects'] += 1
+                self.judge_outputs(obj, dict(case, moment=moment.isoformat(), builder=position), found)
+                self.observe(('edge', number, position), True, {'kind': 'edge-values', 'cls': type(obj).__name__, 'value': moment.isoformat()})
+        dedup = {}
+        for violation in found:
+            dedup.setdefault(violation.key, violation)
+        return list(dedup.values())
 
     def judge_input(self, case):
         """Self-contained witness: the object parsed from the given bytes."""
